@@ -19,7 +19,9 @@
 #include "opentelemetry/logs/provider.h"
 #include "opentelemetry/sdk/common/global_log_handler.h"
 #include "opentelemetry/sdk/logs/batch_log_record_processor.h"
+#include "opentelemetry/sdk/logs/batch_log_record_processor_factory.h"
 #include "opentelemetry/sdk/logs/batch_log_record_processor_options.h"
+#include "opentelemetry/sdk/logs/batch_log_record_processor_runtime_options.h"
 #include "opentelemetry/sdk/logs/exporter.h"
 #include "opentelemetry/sdk/logs/logger_provider.h"
 #include "opentelemetry/sdk/logs/recordable.h"
@@ -35,7 +37,9 @@
 #include "opentelemetry/sdk/metrics/push_metric_exporter.h"
 #include "opentelemetry/sdk/resource/resource.h"
 #include "opentelemetry/sdk/trace/batch_span_processor.h"
+#include "opentelemetry/sdk/trace/batch_span_processor_factory.h"
 #include "opentelemetry/sdk/trace/batch_span_processor_options.h"
+#include "opentelemetry/sdk/trace/batch_span_processor_runtime_options.h"
 #include "opentelemetry/sdk/trace/exporter.h"
 #include "opentelemetry/sdk/trace/processor.h"
 #include "opentelemetry/sdk/trace/recordable.h"
@@ -309,16 +313,68 @@ struct Subject
   virtual bool is_batch() const { return true; }
 };
 
+// Every way the SDK offers to construct a batch processor (selected by a seed-derived `how`): the options
+// constructor, the options + runtime-options constructor, the factory (and, for logs, the legacy
+// positional-argument constructor).  All must give the same queue / batch / delay.
+static std::unique_ptr<sdktrace::SpanProcessor> make_batch_span(std::unique_ptr<sdktrace::SpanExporter> exp, size_t q, size_t b,
+                                                                 std::chrono::milliseconds d, unsigned how)
+{
+  sdktrace::BatchSpanProcessorOptions o;
+  o.max_queue_size        = q;
+  o.max_export_batch_size = b;
+  o.schedule_delay_millis = d;
+  switch (how % 4)
+  {
+    case 0:
+      return std::unique_ptr<sdktrace::SpanProcessor>(new sdktrace::BatchSpanProcessor(std::move(exp), o));
+    case 1:
+    {
+      sdktrace::BatchSpanProcessorRuntimeOptions ro;
+      return std::unique_ptr<sdktrace::SpanProcessor>(new sdktrace::BatchSpanProcessor(std::move(exp), o, ro));
+    }
+    case 2:
+      return sdktrace::BatchSpanProcessorFactory::Create(std::move(exp), o);
+    default:
+    {
+      sdktrace::BatchSpanProcessorRuntimeOptions ro;
+      return sdktrace::BatchSpanProcessorFactory::Create(std::move(exp), o, ro);
+    }
+  }
+}
+static std::unique_ptr<sdklogs::LogRecordProcessor> make_batch_log(std::unique_ptr<sdklogs::LogRecordExporter> exp, size_t q, size_t b,
+                                                                    std::chrono::milliseconds d, unsigned how)
+{
+  sdklogs::BatchLogRecordProcessorOptions o;
+  o.max_queue_size        = q;
+  o.max_export_batch_size = b;
+  o.schedule_delay_millis = d;
+  switch (how % 5)
+  {
+    case 0:
+      return std::unique_ptr<sdklogs::LogRecordProcessor>(new sdklogs::BatchLogRecordProcessor(std::move(exp), o));
+    case 1:
+    {
+      sdklogs::BatchLogRecordProcessorRuntimeOptions ro;
+      return std::unique_ptr<sdklogs::LogRecordProcessor>(new sdklogs::BatchLogRecordProcessor(std::move(exp), o, ro));
+    }
+    case 2:
+      return sdklogs::BatchLogRecordProcessorFactory::Create(std::move(exp), o);
+    case 3:
+    {
+      sdklogs::BatchLogRecordProcessorRuntimeOptions ro;
+      return sdklogs::BatchLogRecordProcessorFactory::Create(std::move(exp), o, ro);
+    }
+    default:
+      return std::unique_ptr<sdklogs::LogRecordProcessor>(new sdklogs::BatchLogRecordProcessor(std::move(exp), q, d, b));
+  }
+}
+
 struct BatchSpanSubject : Subject
 {
-  std::unique_ptr<sdktrace::BatchSpanProcessor> proc;
-  BatchSpanSubject(std::shared_ptr<Script> sc, size_t q, size_t b, std::chrono::milliseconds d)
+  std::unique_ptr<sdktrace::SpanProcessor> proc;
+  BatchSpanSubject(std::shared_ptr<Script> sc, size_t q, size_t b, std::chrono::milliseconds d, unsigned how)
   {
-    sdktrace::BatchSpanProcessorOptions o;
-    o.max_queue_size        = q;
-    o.max_export_batch_size = b;
-    o.schedule_delay_millis = d;
-    proc.reset(new sdktrace::BatchSpanProcessor(std::unique_ptr<sdktrace::SpanExporter>(new RecSpanExporter(sc)), o));
+    proc = make_batch_span(std::unique_ptr<sdktrace::SpanExporter>(new RecSpanExporter(sc)), q, b, d, how);
   }
   void produce(uint64_t p, uint64_t s) override
   {
@@ -332,14 +388,10 @@ struct BatchSpanSubject : Subject
 
 struct BatchLogSubject : Subject
 {
-  std::unique_ptr<sdklogs::BatchLogRecordProcessor> proc;
-  BatchLogSubject(std::shared_ptr<Script> sc, size_t q, size_t b, std::chrono::milliseconds d)
+  std::unique_ptr<sdklogs::LogRecordProcessor> proc;
+  BatchLogSubject(std::shared_ptr<Script> sc, size_t q, size_t b, std::chrono::milliseconds d, unsigned how)
   {
-    sdklogs::BatchLogRecordProcessorOptions o;
-    o.max_queue_size        = q;
-    o.max_export_batch_size = b;
-    o.schedule_delay_millis = d;
-    proc.reset(new sdklogs::BatchLogRecordProcessor(std::unique_ptr<sdklogs::LogRecordExporter>(new RecLogExporter(sc)), o));
+    proc = make_batch_log(std::unique_ptr<sdklogs::LogRecordExporter>(new RecLogExporter(sc)), q, b, d, how);
   }
   void produce(uint64_t p, uint64_t s) override
   {
@@ -408,7 +460,8 @@ struct TracerProviderSubject : Subject
     for (int i = 0; i <= extra; ++i)
     {
       if (i == pos)
-        procs.emplace_back(new sdktrace::BatchSpanProcessor(std::unique_ptr<sdktrace::SpanExporter>(new RecSpanExporter(sc)), o));
+        procs.push_back(make_batch_span(std::unique_ptr<sdktrace::SpanExporter>(new RecSpanExporter(sc)), q, b, d,
+                                        static_cast<unsigned>(seed >> 24)));
       if (i == extra)
         break;
       auto ds  = std::make_shared<Script>();
@@ -468,7 +521,8 @@ struct LoggerProviderSubject : Subject
     for (int i = 0; i <= extra; ++i)
     {
       if (i == pos)
-        procs.emplace_back(new sdklogs::BatchLogRecordProcessor(std::unique_ptr<sdklogs::LogRecordExporter>(new RecLogExporter(sc)), o));
+        procs.push_back(make_batch_log(std::unique_ptr<sdklogs::LogRecordExporter>(new RecLogExporter(sc)), q, b, d,
+                                       static_cast<unsigned>(seed >> 24)));
       if (i == extra)
         break;
       auto ds  = std::make_shared<Script>();
@@ -561,6 +615,7 @@ struct Config
   bool post_shutdown_ops       = true;
   bool gate                    = false;
   bool backlog_flush           = false;  // directed scenario: flushes arrive while a multi-batch backlog is exported
+  bool emit_shutdown_in_flush  = false;  // directed scenario: emit + Shutdown while a ForceFlush sits in a slow exporter flush
   int extra_processors         = 0;
   unsigned yield_ppm = 0, sleep_ppm = 0, cas_ppm = 0, wake_ppm = 0;
   std::string describe() const
@@ -664,6 +719,11 @@ static Config make_config(Rng &r, bool thorough)
     if (r.coin())
       c.phases.push_back(bounded);
   }
+  // Directed scenario (from seeded change C01-w2-1): a ForceFlush on an idle processor is inside a slow exporter
+  // ForceFlush when one thread emits a few records and then calls Shutdown: they were produced before Shutdown.
+  c.emit_shutdown_in_flush = !c.backlog_flush && c.subject < 4 && r.chance(1, 7);
+  if (c.emit_shutdown_in_flush)
+    c.shutdown_mode = 0;
   switch (r.below(3))
   {
     case 0:
@@ -1278,6 +1338,15 @@ static void run_history(uint64_t seed, bool thorough)
     for (auto &p : c.phases)
       p.per_producer = std::min(p.per_producer, 40);
   }
+  if (c.emit_shutdown_in_flush)
+  {
+    script->latency_mode = 2;
+    script->slow_us      = static_cast<unsigned>(r.range(1000, 5000));
+    slow                 = true;
+    for (auto &p : c.phases)
+      p.per_producer = std::min(p.per_producer, 30);
+    R.count("histories_emit_shutdown_in_flush");
+  }
   if (c.backlog_flush)
   {
     script->latency_mode = 2;
@@ -1299,10 +1368,10 @@ static void run_history(uint64_t seed, bool thorough)
   switch (c.subject)
   {
     case 0:
-      subj.reset(new BatchSpanSubject(script, c.queue, c.batch, d));
+      subj.reset(new BatchSpanSubject(script, c.queue, c.batch, d, static_cast<unsigned>(seed >> 24)));
       break;
     case 1:
-      subj.reset(new BatchLogSubject(script, c.queue, c.batch, d));
+      subj.reset(new BatchLogSubject(script, c.queue, c.batch, d, static_cast<unsigned>(seed >> 24)));
       break;
     case 2:
       subj.reset(new TracerProviderSubject(script, c.queue, c.batch, d, c.extra_processors, seed));
@@ -1402,6 +1471,17 @@ static void run_history(uint64_t seed, bool thorough)
     }
     else
     {
+      if (c.emit_shutdown_in_flush)
+      {
+        logged_flush(S, FlushSpec{4});  // drain: the processor is idle now
+        std::thread F([&S] { logged_flush(S, FlushSpec{4}); });
+        usleep(static_cast<unsigned>(r.range(50, 1500)));
+        int k = static_cast<int>(r.range(1, static_cast<int64_t>(std::min<size_t>(3, c.queue))));
+        for (int i = 0; i < k; ++i)
+          logged_produce(S, 0, next_seq[0]++);
+        logged_shutdown(S, 0);  // same thread: those records were produced before Shutdown was called
+        F.join();
+      }
       std::vector<std::thread> th;
       int np = c.producers_race_shutdown ? static_cast<int>(r.range(1, 3)) : 0;
       std::vector<uint64_t> base(static_cast<size_t>(np));
@@ -1575,7 +1655,13 @@ static void run_periodic_history(uint64_t seed, bool thorough)
   }
   auto script  = std::make_shared<Script>();
   script->seed = seed;
-  script->latency_mode = static_cast<int>(r.below(2));
+  script->latency_mode = static_cast<int>(r.below(3));
+  if (script->latency_mode == 2)
+  {
+    // a slow exporter: ForceFlush calls with a finite timeout then expire while a cycle is inside Export
+    script->slow_us = static_cast<unsigned>(r.range(800, 4000));
+    R.count("histories_periodic_slow_exporter");
+  }
   script->flush_false  = r.chance(1, 8);
   script->export_fail  = r.chance(1, 8);
 
